@@ -96,6 +96,13 @@ CHECKS["C03"] = dict(
     design="4 (C03)",
 )
 
+CHECKS["C11"] = dict(
+    technique="Coq proof (custom induction principle over the nested value type; loop lemma for the children fold; unfolding lemmas relating the algorithm's accumulators to the declarative measures) over a hand-written Gallina model of relabel_nodes + differential correspondence on the gengy_* attributes of every node and list of created programs (both depth modes) + the independent traversal evaluated on every observed program",
+    text="3 theorems (Props/C11.v, closed under the global context): default depth mode: for EVERY program whose nodes have arguments exactly when their class is a non-terminal (tuples holding base values only), the metadata relabel_nodes computes - node count, distance to the deepest terminal, weighted size - equals the independent traversal (number of non-terminal nodes, height with lists transparent, sum of the heights of all non-terminal nodes), at every node and every list of the program; the boundary is exact: a node inside a tuple field is invisible to its ancestors (refuted instance, known finding F40). Tied to /repo by ~270 programs per check (lists of nodes, nested lists, multi-level abstract hierarchies, unions, tuples; both depth modes; classes reused under the other depth mode first) whose gengy_nodes / gengy_distance_to_term / gengy_weighted_nodes / gengy_types_this_way are read from EVERY node in pre-order and compared with the model and the specification inside Coq.",
+    note="Trusted: Coq kernel + vm_compute; hand-written model Model/Labels.v; Spec/LabelSpec.v; harness. PARTIAL: the theorem is for the default depth mode (expansion-depthing: correspondence with the model only); the memoisation on gengy_labeled is not modelled - stale values on reused objects are looked for by observation (creation; mutation/crossover regenerate programs, see C06). Known finding F40 (nodes inside tuple fields are not counted).",
+    design="4 (C11)",
+)
+
 ALL = [f"C{n:02d}" for n in range(1, 21)]
 
 m = {
